@@ -749,6 +749,21 @@ for _c in ("DepthwiseConv2D", "QDepthwiseConv2D"):
                   "depth_multiplier=2, padding='same') on 9x8x2 (output "
                   "9x8x4): get_operation_count -> 864, the layer performs "
                   "1728 multiply-accumulates"}
+for _c in ("Dense", "QDense"):
+  TRIAGE[("C19", "R1", "qkeras/qtools/qtools_util.py::get_operation_count",
+          "count-depends-on-batch:" + _c)] = {
+      "status": "fixed", "commit": "692cee4",
+      "what_fails": "the dense arm of get_operation_count took the largest "
+                    "of ALL known dimensions, including the batch size of a "
+                    "model built with a fixed batch: the count was no "
+                    "longer per input sample (or the single-large-dimension "
+                    "assertion fired)",
+      "replayed": "real code before the fix, layer stand-in with "
+                  "compute_output_shape: Dense(1) on (4, 1) -> 16 (one "
+                  "multiply per sample); Dense(3) on (4, 8) -> "
+                  "AssertionError 'multiple >1 size dims'; after the fix 1 "
+                  "and 24 (found by the batch-independence clause added "
+                  "to R1 in round 13)"}
 for _u, _c in (("quantized_po2", "max()-does-not-enclose"),
                ("quantized_po2", "min()-does-not-enclose"),
                ("quantized_relu_po2", "max()-does-not-enclose")):
